@@ -232,18 +232,18 @@ func (r *Report) Finish(verifDir string, prog *Program, started time.Time, seed 
 		ruleCounts[o.Rule][o.Verdict]++
 	}
 	cov := map[string]any{
-		"explanation":    r.Explanation,
-		"not_covered":    r.NotCovered,
-		"obligations":    len(r.Obls),
-		"discharged":     nDis,
-		"excepted":       nExc,
-		"known":          nKnown,
-		"violated":       nViol,
-		"per_rule":       ruleCounts,
-		"instance_floor": r.Floors,
-		"samples":        samples,
-		"checker_cmd":    fmt.Sprintf("/verif/check.sh %s %s", r.Prop, r.Tier),
-		"trusted_base":   append([]string{"go/types type checker", "go/ssa construction (x/tools v0.29.0)", "reviewed tables in /verif/rules"}, r.Trusted...),
+		"explanation":      r.Explanation,
+		"not_covered":      r.NotCovered,
+		"obligations":      len(r.Obls),
+		"discharged":       nDis,
+		"excepted":         nExc,
+		"known":            nKnown,
+		"violated":         nViol,
+		"per_rule":         ruleCounts,
+		"instance_floor":   r.Floors,
+		"samples":          samples,
+		"checker_cmd":      fmt.Sprintf("/verif/check.sh %s %s", r.Prop, r.Tier),
+		"trusted_base":     append([]string{"go/types type checker", "go/ssa construction (x/tools v0.29.0)", "reviewed tables in /verif/rules"}, r.Trusted...),
 		"stale_exceptions": stale,
 	}
 	if prog != nil {
